@@ -25,7 +25,7 @@ from vt.ref import peg
 
 ID = "C03"
 LEVEL = "exploration"
-CASES = {"quick": 5000, "thorough": 250000}
+CASES = {"quick": 4000, "thorough": 250000}
 RULE = ("generated grammars (2-6 rules, at least one abstract rule in 80%, guarded cycles of abstract rules, 'complex mix' "
         "alternatives) x 6 derived inputs; non-trivial: the grammar has an abstract rule with >=2 alternatives and an "
         "accepted input whose model holds an object reached through an abstract rule; distinct by canonical JSON")
@@ -172,7 +172,7 @@ def evaluate(case):
         df = D.diff(a_, b_)
         if df:
             for quirk, label in c01.QUIRKS:
-                res2, _ = peg.parse(g, cfg, text, quirks=(quirk,))
+                res2, _ = peg.parse(g, cfg, text, quirks=quirk)
                 if res2[0] == "ok" and D.diff(a_, D.dump_ref(res2[1])) is None:
                     out.add("known/" + label, ctx + f" at {df[1]}: textX {df[2]} reference")
                     break
